@@ -7,25 +7,37 @@ import (
 )
 
 func TestExplore(t *testing.T) {
-	res := runChainP(t, simkit.NewTrace(), DefaultNodeConfig("n0"), DefaultRegime(), 1, []Op{{OpMine, 0, 0, 0, 0}, {OpMine, 2, 0, 1, 0}, {OpMine, 0, 0, 2, 0}, {OpMine, 2, 0, 3, 0}}, func(r *Runner) Hooks {
-		return Hooks{End: func(w *World) {
-			pos := map[etxKey]int{}
-			p := 0
-			for _, bi := range w.lineOf(r.Head) {
-				blk := r.N.Zone().GetBlockByHash(bi.Hash)
-				t.Logf("#%d order=%d", bi.Number, bi.Order)
-				for _, tx := range blk.Transactions() {
-					if tx.Type() == 1 {
-						t.Logf("     IN  pos=%d type=%d origin=%x idx=%d val=%v", pos[etxKey{tx.OriginatingTxHash(), tx.ETXIndex()}], tx.EtxType(), tx.OriginatingTxHash().Bytes()[:4], tx.ETXIndex(), tx.Value())
-					}
+	tape := []Op{{OpDeploy, 0, 0, 0, 0}, {OpMine, 2, 0, 0, 0}, {OpMine, 2, 0, 1, 0}, {OpLockupMode, 1, 1, 0, 0}}
+	for i := 0; i < 16; i++ {
+		tape = append(tape, Op{OpMine, []int{0, 2, 1}[i%3], 0, i, 1})
+	}
+	tape = append(tape, Op{OpClaim, 0, 0, 1, 0}, Op{OpMine, 2, 0, 1, 1}, Op{OpMine, 0, 0, 2, 1}, Op{OpClaim, 0, 0, 1, 1}, Op{OpMine, 2, 0, 3, 1}, Op{OpMine, 0, 0, 3, 1}, Op{OpMine, 2, 0, 4, 1}, Op{OpMine, 0, 0, 5, 1}, Op{OpMine, 2, 0, 6, 1})
+	res := runChainP(t, simkit.NewTrace(), DefaultNodeConfig("n0"), DefaultRegime(), 1, tape, func(r *Runner) Hooks {
+		return Hooks{AfterHead: func(w *World, n *Node, bi *BlockInfo, reorg bool) {
+			blk := n.Zone().GetBlockByHash(bi.Hash)
+			locks, _ := scanLockups(n)
+			hdr := blk.Header()
+			st, _ := n.Zone().StateAt(hdr.EVMRoot(), hdr.EtxSetRoot(), hdr.QuaiStateSize())
+			code := 0
+			if len(r.Contracts) > 0 {
+				ci, _ := r.Contracts[0].InternalAndQuaiAddress()
+				code = len(st.GetCode(ci))
+			}
+			t.Logf("#%d order=%d txs=%d etxs=%d lockups=%d code=%d woData=%x bal4=%v", bi.Number, bi.Order, len(blk.Transactions()), len(blk.OutboundEtxs()), len(locks), code, blk.WorkObjectHeader().Data(), st.GetBalance(quaiAccounts[4].Int))
+			for k, v := range locks {
+				t.Logf("     lock %s bal=%v unlock=%d n=%d", k, v.Balance, v.Unlock, v.Elements)
+			}
+			for _, e := range blk.OutboundEtxs() {
+				if e.EtxType() != 1 {
+					t.Logf("     OUT etx type=%d val=%v", e.EtxType(), e.Value())
 				}
-				for _, e := range blk.OutboundEtxs() {
-					pos[etxKey{e.OriginatingTxHash(), e.ETXIndex()}] = p
-					t.Logf("     OUT pos=%d type=%d origin=%x idx=%d val=%v", p, e.EtxType(), e.OriginatingTxHash().Bytes()[:4], e.ETXIndex(), e.Value())
-					p++
+			}
+			for _, e := range blk.Transactions() {
+				if e.Type() == 1 && e.EtxType() != 1 {
+					t.Logf("     IN etx type=%d val=%v", e.EtxType(), e.Value())
 				}
 			}
 		}}
 	})
-	_ = res
+	t.Logf("%v", res.stats)
 }
